@@ -1,6 +1,7 @@
 /-
   Line-protocol handler of property C04 (driver side, core Lean only):
     c04pred <schemas-vir>  ->  wf=… acyL=… acyG=… … p:<GoPassName>=… chain:<lang>=… fromast=… ctx:<lang>=…
+                               m:<GoPassName>=ok|err|panic  mchain:<lang>=ok|err|panic  mfromast=ok|err|panic
   i.e. the decidable hypotheses of the `C04_*_partial` theorems evaluated on one IR: the check uses
   them to decide whether a panic of the REAL code on that IR contradicts a theorem (hypotheses
   hold), is outside the property (`wf=false`: malformed IR), or must be a recorded finding.
@@ -41,6 +42,11 @@ def ctxCond (ps : List PassId) (S : Schemas) : Bool :=
     | .ok S' => Cog.Builder.Safe S'
     | _ => true)
 
+def oc {α : Type} : Outcome α → String
+  | .ok _ => "ok"
+  | .err _ => "err"
+  | .panic _ => "panic"
+
 def line (S : Schemas) : String :=
   let w := wfIR S
   let base := ["wf=" ++ b w, "acyL=" ++ b (LocalAliasAcyclic S), "acyG=" ++ b (GlobalAliasAcyclic S),
@@ -50,7 +56,12 @@ def line (S : Schemas) : String :=
   let ps := passes.map fun (n, p) => "p:" ++ n ++ "=" ++ b (w && passCond p S)
   let cs := langs.filterMap fun l => (Cog.Gen.Chains.chainOf l).map fun c => "chain:" ++ l ++ "=" ++ b (w && chainCond c S)
   let xs := langs.filterMap fun l => (Cog.Gen.Chains.chainOf l).map fun c => "ctx:" ++ l ++ "=" ++ b (w && ctxCond c S)
-  " ".intercalate (base ++ ps ++ cs ++ xs)
+  -- what the MODELS do on this IR (a panic of the real code where the model does not panic means the
+  -- model no longer describes the code, whatever the hypotheses say)
+  let ms := passes.map fun (n, p) => "m:" ++ n ++ "=" ++ oc (p.run S)
+  let mcs := langs.filterMap fun l => (Cog.Gen.Chains.chainOf l).map fun c => "mchain:" ++ l ++ "=" ++ oc (runChain c S)
+  let mf := ["mfromast=" ++ oc (Cog.Builder.fromAST S)]
+  " ".intercalate (base ++ ps ++ cs ++ xs ++ ms ++ mcs ++ mf)
 
 end TotalDrv
 
